@@ -2159,7 +2159,7 @@ def py_stream_cases(rng):
     """cases judged by the oracle on the real objects only (no Lean counterpart):
     float/…  binary64 values of extreme and inexact magnitude (underflow, overflow, rounding) under the element-wise operators,
              compared bit for bit with NumPy; a stored zero or a lost entry is an invariant failure;
-    neg/…    negative positions and slice bounds; empty/… empty selections; dup/… the same row twice in a selection;
+    neg/…    negative positions (slice bounds wrap since 8812333 and are judged by slicegrid/…); empty/… empty selections; dup/… the same row twice in a selection;
     maskcol/… boolean masks next to a column index; slice/… negative steps and bounds beyond the size;
     form/…   the index forms repaired by a011765 (regression cases)"""
     cases = []
